@@ -13,9 +13,71 @@ pub struct Item {
     pub focus_decl: usize,
 }
 
+/// A well-typed program just beyond the small bounds of the other families: `n_types` type
+/// declarations, a procedure with six parameters, `n_vars` variables (one with a 300-character
+/// name), `n_stmts` statements in main (assignments, calls with six arguments, a ten-level
+/// else-if chain, blocks nested eight deep, a six-dimensional array access, a hex literal with
+/// many digits). With the defaults main has more than 255 tokens and the text more than 4 KiB.
+pub fn scale_program(n_types: usize, n_vars: usize, n_stmts: usize) -> RProgram {
+    let long_name: String = std::iter::once('x').chain(std::iter::repeat('a').take(299)).collect();
+    let mut decls = vec![RDecl::Type { name: "T0".into(), ty: arr(2, tname("int")) }];
+    for k in 1..n_types {
+        let ty = if k % 2 == 1 { tname(&format!("T{}", k - 1)) } else { arr(2, tname("int")) };
+        decls.push(RDecl::Type { name: format!("T{}", k), ty });
+    }
+    let d6 = arr(2, arr(2, arr(2, arr(2, arr(2, arr(2, tname("int")))))));
+    decls.push(RDecl::Type { name: "D6".into(), ty: d6 });
+    let prm = |n: &str, r: bool, t: RType| RParam { is_ref: r, name: n.into(), ty: t };
+    decls.push(RDecl::Proc {
+        name: "six".into(),
+        params: vec![prm("a1", false, tname("int")), prm("a2", false, tname("int")), prm("a3", true, tname("int")), prm("a4", true, tname("T0")), prm("a5", true, tname("D6")), prm("a6", false, tname("int"))],
+        vars: vec![],
+        body: vec![RStmt::Assign(vname("a3"), bin(Op::Add, bin(Op::Add, evar("a1"), evar("a2")), evar("a6")))],
+    });
+    let mut vars: Vec<RVarDecl> = (0..n_vars).map(|i| RVarDecl { name: format!("v{}", i), ty: tname("int") }).collect();
+    vars.push(RVarDecl { name: long_name.clone(), ty: tname("int") });
+    vars.push(RVarDecl { name: "t0".into(), ty: tname("T0") });
+    vars.push(RVarDecl { name: "d".into(), ty: tname("D6") });
+    let v = |i: usize| format!("v{}", i % n_vars.max(1));
+    let c = |i: usize| bin(Op::Lst, evar(&v(i)), eint(i as u32));
+    let mut body: Vec<RStmt> = vec![];
+    for i in 0..n_stmts {
+        let st = match i % 10 {
+            3 => RStmt::Call("six".into(), vec![eint(i as u32), evar(&v(i)), evar(&v(i + 1)), evar("t0"), evar("d"), bin(Op::Mul, evar(&long_name), eint(2))]),
+            7 => RStmt::Assign(idx(vname("t0"), eint((i % 2) as u32)), evar(&v(i))),
+            _ => RStmt::Assign(vname(&v(i)), bin(Op::Add, evar(&v(i + 1)), eint(i as u32))),
+        };
+        body.push(st);
+    }
+    // ten-level else-if chain
+    let mut chain = RStmt::Assign(vname(&v(0)), eint(10));
+    for k in (0..10).rev() {
+        chain = RStmt::If(c(k), Arc::new(RStmt::Assign(vname(&v(k)), eint(k as u32))), Some(Arc::new(chain)));
+    }
+    body.push(chain);
+    // blocks / loops nested eight deep
+    let mut nest = RStmt::Assign(vname(&long_name), RExpr::Int(Lit::Hex("00000000000000000000001F".into())));
+    for k in 0..8 {
+        nest = match k % 3 {
+            0 => RStmt::Block(vec![nest]),
+            1 => RStmt::While(c(k), Arc::new(nest)),
+            _ => RStmt::If(c(k), Arc::new(RStmt::Block(vec![nest])), None),
+        };
+    }
+    body.push(nest);
+    // six index expressions
+    let mut six_d = vname("d");
+    for k in 0..6 {
+        six_d = idx(six_d, eint((k % 2) as u32));
+    }
+    body.push(RStmt::Assign(six_d, evar(&long_name)));
+    decls.push(RDecl::Proc { name: "main".into(), params: vec![], vars, body });
+    RProgram { decls }
+}
+
 /// families that sampling checks never thin out (small, each member is there for a reason)
 pub fn always_included(family: &str) -> bool {
-    matches!(family, "G1-whole-programs" | "names" | "many-parameters" | "redeclarations")
+    matches!(family, "G1-whole-programs" | "names" | "many-parameters" | "redeclarations" | "scale")
 }
 
 fn main_index(p: &RProgram) -> usize {
@@ -238,6 +300,12 @@ pub fn syntactic_family(tier: Tier) -> Vec<Item> {
         for focus in [2usize, 3, 4, 6] {
             out.push(Item { family: "redeclarations", program: RProgram { decls: decls.clone() }, focus_decl: focus });
         }
+    }
+    // one program just beyond the small bounds (34 types, 34 variables, 70 statements)
+    {
+        let p = scale_program(34, 34, 70);
+        let f = p.decls.len() - 1;
+        out.push(Item { family: "scale", program: p, focus_decl: f });
     }
     // G1: whole programs over tiny pools, every order of declarations
     let (p, dp) = g1_pools();
